@@ -86,6 +86,11 @@ def main_process_pipeline(dd, text, acc, case, exprs=None):
                 dd.nodeio.write_smtlib_to_str(exprs)
             except Exception as e:  # noqa
                 V('render', e)
+            if dd.nodes.count_nodes(exprs) > 400:
+                # task generation enumerates every proposal at every granularity: only for
+                # small inputs is the CPU budget a meaningful hang criterion
+                acc.count('ddmin-task-generation-skipped(large input)')
+                return exprs
             passes = dd.strategy_ddmin.ddmin_passes()
             for stage, depth in ((passes[0], 1), (passes[1], None)):
                 for m in stage:
@@ -168,7 +173,18 @@ def break_text(draw, text):
 
 @st.composite
 def inproc_case(draw):
-    kind = draw(st.sampled_from(['glex', 'glex-broken', 'damaged', 'damaged', 'damaged-steps', 'script-steps']))
+    kind = draw(st.sampled_from(['glex', 'glex-broken', 'damaged', 'damaged', 'damaged-steps', 'script-steps', 'deep']))
+    if kind == 'deep':
+        # deeply nested terms (solvers produce them): nothing in the main process may recurse on the depth
+        depth = draw(st.sampled_from([150, 400, 1200, 3000]))
+        op = draw(st.sampled_from(['not', 'bvnot', '-', 'f']))
+        inner = draw(st.sampled_from(['x', 'true', '(= x 0)']))
+        term = ('(' + op + ' ') * depth + inner + ')' * depth
+        wrap = draw(st.sampled_from(['(assert %s)', '(define-fun g () Bool %s)', '(assert (let ((l %s)) l))', '%s',
+                                     '(declare-const y %s extra)', '(declare-fun y %s)', '(define-fun g %s)',
+                                     '(declare-datatype D %s)', '(assert (forall ((q Int)) %s))']))
+        text = '(declare-const x Int)\n' + (wrap % term) + '\n(check-sat)\n'
+        return dict(kind=kind, text=text, ops=[f'depth-{depth}'], picks=[])
     if kind.startswith('glex'):
         text, _, _ = gen_lex.render(draw(gen_lex.top(max_items=4, max_leaves=20)))
         ops = []
